@@ -27,4 +27,9 @@ TEXT = {
         "level_text": "Texts of 0-8000 bytes laid out to hit each cut rule (sentence break, word break, hard cut, boundaries at SplitLen and multiples) are sent through every splitting method with every interesting SplitLen; the pieces read back from the wire must be bounded, carry the continuation marker, be non-empty and concatenate to the text.",
         "level_note": "Trusted: the wire transcript and the piece extraction in c11_test.go. Sampling; termination is checked with a 20 s stall bound per call.",
     },
+    "C12": {
+        "technique": "model-based testing: exhaustive closure of reachable model states over a small universe executed against the real tracker + long random histories (rapid), relational reference model as oracle",
+        "level_text": "A relational reference model (sets of nicks/channels, membership relation with privileges) is explored breadth-first to closure over a small name universe; from every reachable state every operation (quick: every pair of operations) with every argument tuple, including the empty name and names in use, is executed on a real tracker rebuilt by replaying the shortest path, comparing every return value and the whole observable state. Random 10-300 step histories over a larger universe with full mode alphabets cover what the small universe cannot. Exhaustive within the stated universe (evidence reports states/edges and whether the frontier emptied), sampling beyond.",
+        "level_note": "Trusted: harness/model/tracker.go. The closure reaches each model state by its shortest path only (hidden implementation state reachable only through longer histories is covered by the two-operation suffixes and the random histories, not exhaustively).",
+    },
 }
